@@ -543,18 +543,27 @@ def yaml_dir():
     return os.path.dirname(os.path.realpath(yaml.__file__)) + os.sep
 
 
-def traced(fn, k, ydir):
+def traced(fn, k, ydir, action=None):
     """Run fn() counting `line` events in frames of lib/yaml; raise SimInterrupt at event number k
-    (k=None: only count).  Returns (lines counted, interrupted?, result or None)."""
+    (k=None: only count).  With `action`, the k-th line event does not raise: the trace function runs
+    action() - another complete library call, made "between two lines" of the call in progress, which
+    is what a signal handler (or another thread that gets the GIL there) does - and the call carries
+    on.  CPython does not trace code run from inside a trace function, so the pre-empting call is not
+    counted.  Returns (lines counted, interrupted / pre-empted?, result or None)."""
     import os
     count = [0]
     cache = {}
+    fired = [False]
 
     def local(frame, event, arg):
         if event == 'line':
             count[0] += 1
             if k is not None and count[0] == k:
-                raise SimInterrupt('line event %d' % k)
+                if action is None:
+                    raise SimInterrupt('line event %d' % k)
+                if not fired[0]:
+                    fired[0] = True
+                    action()
         return local
 
     def tracer(frame, event, arg):
@@ -572,7 +581,7 @@ def traced(fn, k, ydir):
         hit = True
     finally:
         sys.settrace(None)
-    return count[0], hit, res
+    return count[0], hit or fired[0], res
 
 
 # ---------------------------------------------------------------------------
@@ -773,7 +782,7 @@ def generate(seed, tier):
         return {'mode': 'stream_dump', 'vals': vals, 'cls': r.choice(DUMPERS[:4]), 'opts': opts}
     # swarm: per-run subset of step kinds
     kinds = {'call': 5, 'fault': r.choice([0, 1, 2]), 'interrupt': r.choice([0, 1, 2]), 'gen': r.choice([0, 2, 4]),
-             'session': r.choice([0, 0, 1, 2])}
+             'session': r.choice([0, 0, 1, 2]), 'preempt': r.choice([0, 0, 1, 3])}
     bag = [k for k, w in kinds.items() for _ in range(w)]
     steps = []
     live = []
@@ -846,6 +855,16 @@ def generate(seed, tier):
             steps.append({'t': 'call', 'op': op})
         elif k == 'interrupt':
             steps.append({'t': 'interrupt', 'op': gen_op(r, reent_ok=r.random() < 0.3), 'at': r.random()})
+        elif k == 'preempt':
+            # another complete call made between two lines of a call in progress (signal handler / other thread);
+            # half of the time the two calls are of the same kind (twin), which is where shared scratch state bites
+            op = gen_op(r, reent_ok=False)
+            inner = twin_op(r, op) if r.random() < 0.5 else None
+            if inner is None:
+                inner = gen_op(r, reent_ok=False)
+            if r.random() < 0.25:
+                inner = dict(op)
+            steps.append({'t': 'preempt', 'op': op, 'inner_op': inner, 'at': r.random()})
         else:
             x = gen_step()
             steps.extend(x if isinstance(x, list) else [x])
@@ -916,6 +935,30 @@ def run_history(case):
                 _, hit, _ = traced(lambda: run_op(yaml, st['op'], ctx), k, ydir)
                 rec['interrupted_at'] = k if hit else None
             ctx['nested'] = nested_first
+        elif t == 'preempt':
+            # a traced complete call (counts the lines), then the same call with another complete call made
+            # from the trace function at line k; both executions of the outer call are compared
+            rec['op'] = st['op']
+            lines, _, obs = traced(lambda: run_op(yaml, st['op'], ctx), None, ydir)
+            rec['obs'] = obs
+            rec['lines'] = lines
+            if lines:
+                k = 1 + int(st['at'] * lines) % lines
+                got = []
+
+                def action():
+                    saved_nested = ctx['nested']
+                    ctx['nested'] = []
+                    try:
+                        got.append(run_op(yaml, st['inner_op'], ctx))
+                    finally:
+                        ctx['nested'] = saved_nested
+                _, hit, obs2 = traced(lambda: run_op(yaml, st['op'], ctx), k, ydir, action)
+                if hit and got:
+                    rec['preempted_at'] = k
+                    rec['obs_pre'] = obs2
+                    rec['inner_op'] = st['inner_op']
+                    rec['inner_obs'] = got[0]
         elif t in ('dump_session', 'load_session'):
             # a call in progress while other steps of the history run: between the documents of a
             # dump_all (documents iterable) or inside a constructor (re-entrant)
@@ -1050,6 +1093,8 @@ def case_ops(case):
             st = stack.pop()
             for g in st.get('inner') or []:
                 stack.extend(g)
+            if st.get('inner_op'):
+                yield st['inner_op']
             if 'op' in st:
                 yield st['op']
                 for k in ('nested', 'between'):
@@ -1118,12 +1163,30 @@ def execute(case):
                     break
             if out['violations']:
                 break
+            if rec['t'] == 'preempt':
+                if rec.get('preempted_at'):
+                    out['faults']['line-preemption-by-another-call'] = out['faults'].get('line-preemption-by-another-call', 0) + 1
+                    out['evals'] += 2
+                    if rec['obs_pre'] != want:
+                        out['violations'].append({'class': 'preempted-call-differs-from-isolated-call', 'detail': dict(
+                            where, op=op, inner_op=rec['inner_op'], at_line=rec['preempted_at'], of_lines=rec.get('lines'),
+                            diff=obs_diff(want, rec['obs_pre']))})
+                        break
+                    iwant, _ = reference(rec['inner_op'])
+                    if rec['inner_obs'] != iwant:
+                        out['violations'].append({'class': 'preempting-call-differs-from-isolated-call', 'detail': dict(
+                            where, op=op, inner_op=rec['inner_op'], at_line=rec['preempted_at'], of_lines=rec.get('lines'),
+                            diff=obs_diff(iwant, rec['inner_obs']))})
+                        break
+                else:
+                    out['extra']['preemption_not_fired'] = out['extra'].get('preemption_not_fired', 0) + 1
             if rec['t'] == 'interrupt':
                 if rec.get('interrupted_at'):
                     out['faults']['line-interrupt'] = out['faults'].get('line-interrupt', 0) + 1
                 else:
                     out['extra']['interrupt_not_fired'] = out['extra'].get('interrupt_not_fired', 0) + 1
-            logparts.append([rec['step'], observe.digest(rec['obs']), rec.get('lines'), rec.get('interrupted_at')])
+            logparts.append([rec['step'], observe.digest(rec['obs']), rec.get('lines'), rec.get('interrupted_at'), rec.get('preempted_at'),
+                             observe.digest(rec.get('inner_obs'))])
         else:
             logparts.append([rec['step'], rec['t'], rec.get('task'), rec.get('got'), rec.get('throw'), rec.get('interrupted_at')])
             if rec.get('throw') not in (None, 'propagated'):
@@ -1475,8 +1538,15 @@ def shrink(case):
                         op2['cls'] = op2['cls'].replace('Reent', '')
                         op2['docs'] = [d for d in op2['docs'] if d != 'reent'] or ['plain']
                     yield dict(case, steps=steps[:i] + [dict(st, op=op2)] + steps[i + 1:])
-            if st['t'] == 'interrupt':
+            if st['t'] in ('interrupt', 'preempt'):
                 yield dict(case, steps=steps[:i] + [{'t': 'call', 'op': op}] + steps[i + 1:])
+            if st['t'] == 'preempt':
+                yield dict(case, steps=steps[:i] + [{'t': 'call', 'op': st['inner_op']}, {'t': 'call', 'op': op}] + steps[i + 1:])
+                for key in ('docs', 'vals'):
+                    iop = st['inner_op']
+                    if iop.get(key) and len(iop[key]) > 1:
+                        for cand in shr.list_candidates(iop[key], 1):
+                            yield dict(case, steps=steps[:i] + [dict(st, inner_op=dict(iop, **{key: cand}))] + steps[i + 1:])
             for key in ('docs', 'vals'):
                 if op.get(key) and len(op[key]) > 1:
                     for cand in shr.list_candidates(op[key], 1):
